@@ -145,3 +145,49 @@ V("C18-reader-reordered", ["C18"], "gmm",
 V("C18-trainer-asstr", ["C18"], "gmm",
   "            trainer = hdf5['trainer'][()]\n            if isinstance(trainer, bytes):\n                trainer = trainer.decode()\n",
   "            trainer = hdf5['trainer'].asstr()[()]\n", "decode with asstr()", kind="benign")
+
+# ----------------------------------------------------------------------------- C14
+MU_DICT = "        mu_l = {label: numerical_module.mean(X[numerical_module.where(y_ == label)[0]], axis=0) for label in possible_labels}"
+V("C14-mu-positional", ["C14", "C16"], "wccn", MU_DICT,
+  "        mu_l = numerical_module.array([numerical_module.mean(X[numerical_module.where(y_ == label)[0]], axis=0) for label in possible_labels])",
+  "revert of fix 8d5ae68: class means positional in set order, indexed by label value")
+V("C14-mu-list-enumerate", ["C14", "C16"], "wccn",
+  MU_DICT + "\n        Sw = numerical_module.zeros((X.shape[1], X.shape[1]), dtype=float)\n        for label in possible_labels:\n            indexes = numerical_module.where(y_ == label)[0]\n            X_l_mu_l = X[indexes] - mu_l[label]",
+  "        labels = sorted(possible_labels)\n        mu_l = [numerical_module.mean(X[numerical_module.where(y_ == label)[0]], axis=0) for label in labels]\n        Sw = numerical_module.zeros((X.shape[1], X.shape[1]), dtype=float)\n        for pos, label in enumerate(labels):\n            indexes = numerical_module.where(y_ == label)[0]\n            X_l_mu_l = X[indexes] - mu_l[pos]",
+  "sorted labels with enumerate: positional pairing", kind="benign")
+V("C14-lower-false", ["C14"], "wccn", "self.weights = cholesky(inv_scaled_Sw, lower=True)", "self.weights = cholesky(inv_scaled_Sw, lower=False)", "upper factor in WCCN")
+V("C14-lower-dropped", ["C14"], "whitening", "self.weights = cholesky(inv_cov, lower=True)", "self.weights = cholesky(inv_cov)", "upper factor in whitening (library default)")
+V("C14-upper-transposed", ["C14"], "whitening", "self.weights = cholesky(inv_cov, lower=True)", "self.weights = cholesky(inv_cov).T", "upper factor transposed = lower factor", kind="benign")
+V("C14-no-inverse", ["C14"], "whitening", "inv_cov = pinv(cov) if self.pinv else inv(cov)", "inv_cov = cov", "Cholesky of the covariance instead of its inverse")
+V("C14-transform-sign", ["C14"], "wccn", "(x - self.input_subtract) / self.input_divide @ self.weights", "(x + self.input_subtract) / self.input_divide @ self.weights", "mean added instead of subtracted")
+V("C14-transform-order", ["C14"], "whitening", "(X - self.input_subtract) / self.input_divide @ self.weights", "(X / self.input_divide - self.input_subtract) @ self.weights", "subtract after scaling")
+V("C14-label-arith", ["C14", "C16"], "wccn", "            Sw += X_l_mu_l.T @ X_l_mu_l", "            Sw += (1 + 1e-09 * label) * (X_l_mu_l.T @ X_l_mu_l)", "label value used arithmetically")
+V("C14-nclasses-max", ["C14"], "wccn", "n_classes = len(possible_labels)", "n_classes = max(y) + 1", "class count from the largest label value")
+V("C14-wrong-mean", ["C14"], "wccn", "            X_l_mu_l = X[indexes] - mu_l[label]", "            X_l_mu_l = X[indexes] - numerical_module.mean(X, axis=0)", "centres every class on the global mean")
+V("C14-mean-axis", ["C14"], "whitening", "mu = numerical_module.mean(X, axis=0)", "mu = numerical_module.mean(X)", "scalar grand mean instead of per-feature mean")
+V("C14-arm-different-fn", ["C14", "C04"], "whitening", "            from scipy.linalg import cholesky, inv", "            from scipy.linalg import cholesky\n            from scipy.linalg import pinvh as inv", "NumPy arm binds another inverse than the Dask arm", kind="break")
+V("C14-renamed-locals", ["C14", "C16"], "wccn", "possible_labels", "classes", "rename a local", kind="benign", count="all")
+
+# ----------------------------------------------------------------------------- C16
+V("C16-seed-removed", ["C16"], "factor_analysis",
+  "        if self.random_state is not None:\n            np.random.seed(self.random_state)\n        U_shape", "        U_shape",
+  "U/V initialisation no longer re-seeded: depends on the global RNG state")
+V("C16-seed-after-draw", ["C16"], "factor_analysis",
+  "        if self.random_state is not None:\n            np.random.seed(self.random_state)\n        U_shape = (self.supervector_dimension, self.r_U)\n        self._U = np.random.normal(scale=1.0, loc=0.0, size=U_shape)",
+  "        U_shape = (self.supervector_dimension, self.r_U)\n        self._U = np.random.normal(scale=1.0, loc=0.0, size=U_shape)\n        if self.random_state is not None:\n            np.random.seed(self.random_state)",
+  "seed call moved after the first draw")
+V("C16-seed-constantless", ["C16"], "factor_analysis", "np.random.seed(self.random_state)", "np.random.seed()", "seed() without argument")
+V("C16-kinit-unseeded", ["C16"], "kmeans", ", random_state=self.random_state, max_iter=self.init_max_iter", ", max_iter=self.init_max_iter", "k_init without random_state (dask-ml default None)")
+V("C16-kinit-none", ["C16"], "kmeans", "random_state=self.random_state, max_iter=self.init_max_iter", "random_state=None, max_iter=self.init_max_iter", "k_init(random_state=None)")
+V("C16-kmeans-default-seed", ["C16"], "gmm", "KMeansMachine(self.n_gaussians, random_state=self.random_state)", "KMeansMachine(self.n_gaussians)", "k-means trainer with its own constant default seed: still reproducible", kind="benign")
+V("C16-extra-global-draw", ["C16"], "gmm", "            self.means = copy.deepcopy(kmeans_machine.centroids_)", "            self.means = copy.deepcopy(kmeans_machine.centroids_) + 1e-12 * np.random.rand(*kmeans_machine.centroids_.shape)", "unseeded global draw added to the GMM initialisation")
+V("C16-unseeded-generator", ["C16"], "factor_analysis", "self._U = np.random.normal(scale=1.0, loc=0.0, size=U_shape)", "self._U = np.random.RandomState().normal(scale=1.0, loc=0.0, size=U_shape)", "fresh unseeded RandomState")
+V("C16-seeded-generator", ["C16"], "factor_analysis", "self._U = np.random.normal(scale=1.0, loc=0.0, size=U_shape)", "self._U = np.random.RandomState(self.random_state).normal(scale=1.0, loc=0.0, size=U_shape)", "own generator seeded from random_state", kind="benign")
+V("C16-append-in-set-loop", ["C16"], "factor_analysis",
+  "        for y_i in set(y):\n            id_plus_d_prod = self._compute_id_plus_d_prod_i(dt_inv_sigma_d, n_acc[y_i])\n            X_i = self._get_statistics_by_class_id(X, y, y_i)\n            latent_x_i = latent_x[y_i]\n            latent_y_i = latent_y[y_i] if latent_y is not None else None\n            fn_z_i = self._compute_fn_z_i(X_i, latent_x_i, latent_y_i, n_acc[y_i], f_acc[y_i])\n            latent_z[y_i] = id_plus_d_prod * dt_inv_sigma * fn_z_i\n        return latent_z",
+  "        new_z = []\n        for y_i in set(y):\n            id_plus_d_prod = self._compute_id_plus_d_prod_i(dt_inv_sigma_d, n_acc[y_i])\n            X_i = self._get_statistics_by_class_id(X, y, y_i)\n            latent_x_i = latent_x[y_i]\n            latent_y_i = latent_y[y_i] if latent_y is not None else None\n            fn_z_i = self._compute_fn_z_i(X_i, latent_x_i, latent_y_i, n_acc[y_i], f_acc[y_i])\n            new_z.append(id_plus_d_prod * dt_inv_sigma * fn_z_i)\n        return np.vstack(new_z)",
+  "latent z rows collected in set-iteration order instead of by class id")
+V("C16-wrong-class-index", ["C16"], "factor_analysis",
+  "            acc_D_A2 += fn_z_i * latent_z[y_i]", "            acc_D_A2 += fn_z_i * latent_z[y_i - 1]", "neighbouring class's offset used in the D accumulator")
+V("C16-sorted-loop", ["C16"], "factor_analysis", "        for i in set(y):\n            n_acc_i = n_acc[i]", "        for i in sorted(set(y)):\n            n_acc_i = n_acc[i]", "iterate the classes in sorted order", kind="benign")
+V("C16-time-seed", ["C16"], "kmeans", "random_state=self.random_state, max_iter=self.init_max_iter", "random_state=int(time.time()), max_iter=self.init_max_iter", "seed taken from the clock")
